@@ -17,8 +17,8 @@ EXTENDS Integers, Sequences, FiniteSets, TLC, Json, IOUtils
 
 Traces == ndJsonDeserialize(IOEnv.TRACE_FILE)
 
-VARIABLES tid, l, st, val, reads, stack, verdict
-vars == <<tid, l, st, val, reads, stack, verdict>>
+VARIABLES tid, l, st, val, reads, stack, verdict, absent
+vars == <<tid, l, st, val, reads, stack, verdict, absent>>
 
 T == Traces[tid]
 Ev == T.ev
@@ -39,8 +39,9 @@ Init == /\ tid \in 1..Len(Traces) /\ l = 1 /\ verdict = "ok" /\ stack = <<>>
         /\ st = [c \in DOMAIN Traces[tid].deps |-> "new"]
         /\ val = [c \in DOMAIN Traces[tid].deps |-> ""]
         /\ reads = [c \in DOMAIN Traces[tid].deps |-> {}]
+        /\ absent = {Traces[tid].late[i] : i \in 1..Len(Traces[tid].late)}       \* commands not yet added to the program
 
-Same == UNCHANGED <<st, val, reads, stack>>
+Same == UNCHANGED <<st, val, reads, stack, absent>>
 Fail(clause) == verdict' = clause /\ Same
 Pass == UNCHANGED verdict /\ Same
 Top == stack[Len(stack)]
@@ -51,14 +52,14 @@ ExecBegin(e) ==
     ELSE IF st[e.c] = "finished" THEN Fail("C01.ExactlyOnce")
     ELSE IF st[e.c] = "running" THEN Fail("C14.Reentered")
     ELSE /\ st' = [st EXCEPT ![e.c] = "running"] /\ stack' = Append(stack, e.c)
-         /\ reads' = [reads EXCEPT ![e.c] = {}] /\ UNCHANGED <<val, verdict>>
+         /\ reads' = [reads EXCEPT ![e.c] = {}] /\ UNCHANGED <<val, verdict, absent>>
 
 \* d.result evaluated by the body of c's execute
 Read(e) ==
     IF stack = <<>> \/ Top # e.c THEN Fail("C01.ReadOutsideExec")
     ELSE IF e.d \notin Cmds THEN Fail("Trace.UnknownCommand")
     ELSE IF st[e.d] # "finished" \/ val[e.d] # e.tok THEN Fail("C01.ReadUnfinishedOrStale")
-    ELSE /\ reads' = [reads EXCEPT ![e.c] = @ \cup {e.d}] /\ UNCHANGED <<st, val, stack, verdict>>
+    ELSE /\ reads' = [reads EXCEPT ![e.c] = @ \cup {e.d}] /\ UNCHANGED <<st, val, stack, verdict, absent>>
 
 \* d.result evaluated while validating parameters (no frame requirement)
 VRead(e) ==
@@ -71,18 +72,18 @@ ExecEnd(e) ==
     ELSE IF T.strict /\ ~((DepsOf(e.c) \ IgnoredOf(e.c)) \subseteq reads[e.c]) THEN Fail("C01.DependencyNotRead")
     ELSE IF T.strict /\ ~(reads[e.c] \subseteq DepsOf(e.c)) THEN Fail("C01.ReadUnreferenced")
     ELSE /\ st' = [st EXCEPT ![e.c] = "finished"] /\ val' = [val EXCEPT ![e.c] = e.tok]
-         /\ stack' = Pop /\ UNCHANGED <<reads, verdict>>
+         /\ stack' = Pop /\ UNCHANGED <<reads, verdict, absent>>
 
 ExecFail(e) ==
     IF stack = <<>> \/ Top # e.c THEN Fail("Trace.EndMismatch")
-    ELSE /\ st' = [st EXCEPT ![e.c] = "new"] /\ stack' = Pop /\ UNCHANGED <<val, reads, verdict>>
+    ELSE /\ st' = [st EXCEPT ![e.c] = "new"] /\ stack' = Pop /\ UNCHANGED <<val, reads, verdict, absent>>
 
 Call(e) == IF stack # <<>> THEN Fail("Trace.NestedCall") ELSE Pass
 
 RetRun(e) ==
     IF stack # <<>> THEN Fail("Trace.Unbalanced")
     ELSE IF e.ok /\ HasCycle THEN Fail("C14.ReturnedOk")
-    ELSE IF e.ok /\ \E c \in Cmds : st[c] # "finished" THEN Fail("C01.RunIncomplete")
+    ELSE IF e.ok /\ \E c \in Cmds \ absent : st[c] # "finished" THEN Fail("C01.RunIncomplete")
     ELSE IF ~e.ok /\ e.cause = "RecursionError" THEN Fail("C14.StackOverflow")
     ELSE IF ~e.ok /\ e.cls = "RecursiveModelStructure" /\ ~HasCycle THEN Fail("C01.SpuriousRecursive")
     ELSE IF ~e.ok /\ HasCycle /\ Fails = {} /\ e.cls # "RecursiveModelStructure" THEN Fail("C14.WrongError")
@@ -108,6 +109,7 @@ Step == /\ l <= Len(Ev) /\ verdict = "ok" /\ l' = l + 1 /\ UNCHANGED tid
              [] e.ev = "vread" -> VRead(e)
              [] e.ev = "exec_end" -> ExecEnd(e)
              [] e.ev = "exec_fail" -> ExecFail(e)
+             [] e.ev = "add" -> absent' = {} /\ UNCHANGED <<st, val, reads, stack, verdict>>
              [] e.ev = "call_run" -> Call(e)
              [] e.ev = "call_result" -> Call(e)
              [] e.ev = "ret_run" -> RetRun(e)
